@@ -37,7 +37,9 @@ def seeded():
         need = re.sub(r"\s+", " ", str(m.get("needs_to_manifest", ""))).replace("|", "\\|")[:200]
         sigs = "; ".join(s.replace("|", "\\|")[:70] for s in ck.get("signatures", [])[:2])
         out.append(f"| {name} | {summ} | {need} | {v.get('demo_unchanged_exit')} / {v.get('demo_patched_exit')} | {'green' if v.get('baseline_exit') == 0 else v.get('baseline_exit')} | "
-                   f"{'**caught**' if ck.get('caught') else 'MISSED'} (exit {ck.get('exit')}, {ck.get('wall_s')} s) | {sigs} |")
+                   f"{'**caught**' if ck.get('caught') else 'MISSED'} (exit {ck.get('exit')}, {ck.get('wall_s')} s)"
+                   + (" -> **caught** after strengthening" if m.get("after_strengthening", {}).get("caught") and not ck.get("caught") else "") + f" | "
+                   + (sigs or "; ".join(x.replace("|", "\\|")[:70] for x in m.get("after_strengthening", {}).get("signatures", [])[:2])) + " |")
     return "\n".join(out) + "\n"
 
 
